@@ -206,6 +206,43 @@ thread_local! {
     static LAST_PANIC: std::cell::RefCell<Option<(String, String)>> = std::cell::RefCell::new(None);
 }
 
+/// A logger that renders every record of the code under test and throws the text away: with
+/// logging off the `log` macros do not even evaluate their arguments, so code that only runs - or
+/// only fails - when a deployment turns on debug logging would never execute under simulation.
+struct RenderingLogger;
+
+impl log::Log for RenderingLogger {
+    fn enabled(&self, _: &log::Metadata) -> bool {
+        true
+    }
+    fn log(&self, record: &log::Record) {
+        use std::fmt::Write;
+        // The argument expressions were evaluated by the macro; rendering is cut off after a few
+        // hundred bytes (hex dumps of 64 KiB packets would otherwise dominate the run time).
+        struct Bounded(usize);
+        impl Write for Bounded {
+            fn write_str(&mut self, s: &str) -> std::fmt::Result {
+                if s.len() > self.0 {
+                    self.0 = 0;
+                    return Err(std::fmt::Error);
+                }
+                self.0 -= s.len();
+                Ok(())
+            }
+        }
+        let _ = write!(Bounded(600), "{}", record.args());
+    }
+    fn flush(&self) {}
+}
+
+pub fn install_logger() {
+    if std::env::var("VERIF_NO_LOG").is_err() {
+        static LOGGER: RenderingLogger = RenderingLogger;
+        let _ = log::set_logger(&LOGGER);
+        log::set_max_level(log::LevelFilter::Trace);
+    }
+}
+
 pub fn install_panic_hook() {
     std::panic::set_hook(Box::new(|info| {
         let loc = info
@@ -409,6 +446,9 @@ pub fn drive<C: Check>(check: &C, tier: Tier) -> i32 {
         let plan = (fam.make)(i_in, &mut rng);
         (fam, run_seed, plan)
     };
+    // VERIF_DUMP_HASHES=<file>: per-run event-log hashes, for diffing two executions
+    let dump_hashes = std::env::var("VERIF_DUMP_HASHES").is_ok();
+    let dumped: Mutex<Vec<(u64, u64)>> = Mutex::new(vec![]);
     std::thread::scope(|scope| {
         scope.spawn(|| {
             while workers_done.load(Ordering::SeqCst) < nthreads as u64 {
@@ -449,6 +489,7 @@ pub fn drive<C: Check>(check: &C, tier: Tier) -> i32 {
             let workers_done = &workers_done;
             let next = &next;
             let found = &found;
+            let dumped = &dumped;
             let acc = &acc;
             let capped = &capped;
             let families = &families;
@@ -496,6 +537,9 @@ pub fn drive<C: Check>(check: &C, tier: Tier) -> i32 {
                         local.stats.merge(&out.stats);
                         local.stats.sim_ms += crate::exec::take_sim_ms();
                         local.trace_xor ^= mix(&[index, out.trace_hash]);
+                        if dump_hashes {
+                            dumped.lock().unwrap().push((index, out.trace_hash));
+                        }
                         if out.nontrivial {
                             local.shapes.insert(out.shape);
                         }
@@ -530,6 +574,12 @@ pub fn drive<C: Check>(check: &C, tier: Tier) -> i32 {
             });
         }
     });
+    if let Ok(path) = std::env::var("VERIF_DUMP_HASHES") {
+        let mut d = dumped.into_inner().unwrap();
+        d.sort();
+        let text: String = d.iter().map(|(i, h)| format!("{i} {h:016x}\n")).collect();
+        let _ = std::fs::write(path, text);
+    }
     let acc = acc.into_inner().unwrap();
     let mut found = found.into_inner().unwrap();
     dedup_found(&mut found, max_keep_per_class);
